@@ -2,7 +2,7 @@
 CONSTANTS
   NG = 2
   Focus = {"Node", "Append", "Remove", "SetNodeName", "SetValName"}
-  Seeds = {1, 2, 3}
+  Seeds = {2, 3}
   NPool = {"<none>", "node_Op_1"}
   OutSel = {2, 3, 4}
   NodeGraphs = {0, 1}
